@@ -11,6 +11,7 @@ import (
 	"github.com/0chain/common/core/currency"
 	"verif/lib/chainsim"
 	"verif/lib/ev"
+	"verif/lib/kvsc"
 	"verif/lib/world"
 )
 
@@ -54,7 +55,9 @@ func explore(run *ev.Run, w *world.World, acts []chainsim.Action, roots [][]chai
 
 func c02(run *ev.Run) {
 	w := world.New(world.Options{})
+	kvsc.Register()
 	acts := append(contractAlphabet(w), failingAlphabet(w)...)
+	acts = append(acts, kvLateFailures(w)...)
 	acts = append(acts, send(w, "c0", "c1", constAmt(1), "1", 0))
 	run.Rule = "BFS over sequences of contract calls (success and late-failing variants of every scripted function); oracle on every transition that ends with status error: leaf diff = sender (-fee, nonce+1) and miner-contract wallet (+fee) only, exactly one error event"
 	explore(run, w, acts, nil, 3, 4, failMonitor, supplyMonitor)
